@@ -23,7 +23,8 @@ Proof. intros [|a [|b [|c p]]]; reflexivity. Qed.
 
 Section RouteProofs.
 Context {M : MatchOps}.
-Hypothesis ckeys_sound : forall (c : clause) (ks : list name) (k : name), ckeys c = Some ks -> cmatch c k = true -> In k ks.
+Variable okname : name -> Prop.
+Hypothesis ckeys_sound : forall (c : clause) (ks : list name) (k : name), okname k -> ckeys c = Some ks -> cmatch c k = true -> In k ks.
 Hypothesis ckeys_complete : forall (c : clause) (ks : list name) (k : name), ckeys c = Some ks -> In k ks -> cmatch c k = true.
 
 Local Notation FX := r_all_fixed.
@@ -143,17 +144,17 @@ Definition gets (st : rstate) (s : sid) (self_ok : bool) (mt : matcher) (r : sid
   existsb (fun n => owned_by (sv_sessions (rs_srv st)) r n && matches_path mt (n_path n) (Some (n_data n))) (sv_tree (rs_srv st)).
 
 Theorem pass_traversal_once : forall (st : rstate) (s : sid) (self_ok : bool) (d : dlv) (mt : matcher),
-  tree_wf (sv_tree (rs_srv st)) -> matcher_wf mt ->
+  tree_wf (sv_tree (rs_srv st)) -> (forall n, In n (sv_tree (rs_srv st)) -> Forall okname (n_path n)) -> matcher_wf mt ->
   pass_traversal FX st s self_ok d mt
   = map (fun ri => if gets st s self_ok mt (ri_id ri) then put_inbox s d ri else ri) (rs_info st).
 Proof.
-  intros st s self_ok d mt TWF MWF. unfold pass_traversal, do_traversal. cbn [rf_guard FX length].
+  intros st s self_ok d mt TWF NOK MWF. unfold pass_traversal, do_traversal. cbn [rf_guard FX length].
   rewrite (trav_ext _ _ _ _ _ _ _ _ (pass_cb_K (sv_sessions (rs_srv st)) s self_ok d)).
   rewrite trav_const_depth. rewrite fold_pass_h. rewrite deliver_fold by apply targets_nodup.
   apply map_ext. intros ri.
   set (L := Vt (sv_tree (rs_srv st)) mt true true (S (max_clauses mt)) []).
   assert (X : sid_mem (ri_id ri) (targets (sv_sessions (rs_srv st)) s self_ok L []) = gets st s self_ok mt (ri_id ri)).
-  { destruct (traversal_eq_bruteforce_lemma ckeys_sound ckeys_complete (sv_tree (rs_srv st)) mt [] true TWF MWF) as [_ SEL].
+  { destruct (traversal_eq_bruteforce_lemma okname ckeys_sound ckeys_complete (sv_tree (rs_srv st)) mt [] true TWF MWF NOK) as [_ SEL].
     rewrite visits_V in SEL. cbn [length] in SEL.
     apply eq_true_iff_eq. rewrite sid_mem_in, targets_spec. unfold gets. rewrite andb_true_iff, existsb_exists.
     split.
@@ -206,21 +207,22 @@ Definition route_targets (st : rstate) (s : sid) (ri : rinfo) (m : umsg) (r : si
   end.
 
 Theorem deliver_once_lemma : forall (st : rstate) (s : sid) (ss : session) (ri : rinfo) (m : umsg),
-  tree_wf (sv_tree (rs_srv st)) -> NoDup (map s_id (sv_sessions (rs_srv st))) -> matcher_wf (ri_route ri) ->
+  tree_wf (sv_tree (rs_srv st)) -> (forall n, In n (sv_tree (rs_srv st)) -> Forall okname (n_path n)) ->
+  NoDup (map s_id (sv_sessions (rs_srv st))) -> matcher_wf (ri_route ri) ->
   get_session (rs_srv st) s = Some ss -> get_info st s = Some ri -> in_cmd_range (u_what m) = false ->
   route_msg FX st s m
   = mkRS (rs_srv st)
          (map (fun x => if route_targets st s ri m (ri_id x)
                         then put_inbox s (mkD s (u_tag m) (overwrite (u_session m) (s_name ss))) x else x) (rs_info st)).
 Proof.
-  intros st s ss ri m TWF NDS RWF Hs Hi Hw. unfold route_msg, route_targets. rewrite Hw, Hs, Hi.
+  intros st s ss ri m TWF NOK NDS RWF Hs Hi Hw. unfold route_msg, route_targets. rewrite Hw, Hs, Hi.
   destruct (u_keys m) as [|k ks] eqn:Hk.
   - destruct (has_param (ri_params ri) PKeys).
     + unfold set_infos. now rewrite pass_traversal_once.
     + destruct (ri_gw2nb ri).
       * unfold set_infos. rewrite broadcast_spec by assumption. reflexivity.
       * destruct st as [srv infos]. cbn [rs_srv rs_info]. f_equal. rewrite <- (map_id infos) at 1. reflexivity.
-  - unfold set_infos. rewrite pass_traversal_once; [reflexivity | assumption | apply m_of_list_wf].
+  - unfold set_infos. rewrite pass_traversal_once; [reflexivity | assumption | assumption | apply m_of_list_wf].
 Qed.
 
 End RouteProofs.
